@@ -323,7 +323,11 @@ dt_get_wcnt_year(struct dt_d_s this, unsigned int wkcnt_convention)
 		/*@fallthrough@*/
 	case DT_YMD:
 	case DT_DAISY:
-	case DT_YD: {
+	case DT_YD:
+	case DT_YMCW:
+	case DT_YWD: {
+		/* all week counts are defined in terms of the day of the year,
+		 * whatever calendar THIS happens to be in */
 		dt_yd_t yd = dt_conv_to_yd(this);
 
 		switch (wkcnt_convention) {
@@ -358,12 +362,6 @@ dt_get_wcnt_year(struct dt_d_s this, unsigned int wkcnt_convention)
 		}
 		break;
 	}
-	case DT_YMCW:
-		res = __ymcw_get_yday(this.ymcw);
-		break;
-	case DT_YWD:
-		res = __ywd_get_wcnt_year(this.ywd, wkcnt_convention);
-		break;
 	default:
 		res = 0;
 		break;
@@ -384,7 +382,9 @@ dt_get_yday(struct dt_d_s that)
 	case DT_BIZDA:
 		return __bizda_get_yday(that.bizda, __get_bizda_param(that));
 	case DT_YWD:
-		return __ywd_get_yday(that.ywd);
+		/* __ywd_get_yday() counts from the ISO year's 1 Jan and may
+		 * be non-positive or beyond the year's end */
+		return __ywd_to_yd(that.ywd).d;
 	case DT_YD:
 		return that.yd.d;
 	case DT_UMMULQURA:
